@@ -29,6 +29,18 @@ pub fn gen_c17_case(g: &mut G) -> Value {
         doc["definitions"]["AaSide"] = json!({"type": "string", "enum": ["up", "down"]});
         doc["definitions"]["MmUnionOfUnions"] = json!({"oneOf": [{"$ref": "#/definitions/ZzUnionLast"}, {"type": "boolean"}]});
     }
+    // compound types over generated types: their reported identifiers must resolve from outside
+    // the configured module just like those of named types
+    if g.chance(1, 3) {
+        doc["definitions"]["CompPoint"] = json!({"type": "object", "properties": {"x": {"type": "integer"}}, "required": ["x"]});
+        doc["definitions"]["CompSegment"] = json!({"type": "object", "properties": {
+            "ends": {"type": "array", "items": [{"$ref": "#/definitions/CompPoint"}, {"$ref": "#/definitions/CompPoint"}], "minItems": 2, "maxItems": 2},
+            "trail": {"type": "array", "items": {"$ref": "#/definitions/CompPoint"}},
+            "corners": {"type": "array", "items": {"$ref": "#/definitions/CompPoint"}, "minItems": 3, "maxItems": 3},
+            "by_name": {"type": "object", "additionalProperties": {"$ref": "#/definitions/CompPoint"}},
+            "maybe": {"oneOf": [{"$ref": "#/definitions/CompPoint"}, {"type": "null"}]}
+        }, "required": ["ends"]});
+    }
     let mut settings = settings(g, &doc, true);
     // patches rename types: keep (the API must follow), replacements too
     if g.chance(1, 2) {
@@ -254,6 +266,9 @@ impl Property for C17 {
         let mut seen = std::collections::BTreeSet::new();
         j.violations.retain(|v| seen.insert(v.symptom.clone()));
         Ok(j)
+    }
+    fn in_domain(&self, case: &Value) -> bool {
+        case_settings_in_domain(case)
     }
     fn predicate(&self, name: &str, case: &Value, v: &Violation) -> bool {
         super::predicates::check(name, case, v)
